@@ -412,7 +412,23 @@ def unitsLoop (P : Nat → R Lookup.CU) (size : Nat) : Nat → Nat → List Look
         | .ok sz => unitsLoop P size fuel (offset + sz) (cu :: acc)
     else (acc.reverse, none)
 
-/-- `DWARFInfo.get_DIE_by_sig8(sig8)`.  `units` = the type units `_parse_debug_types` finds in `.debug_types`
+/-- the key `_parse_debug_types` files a type unit under: `tu['signature']` for a unit of `.debug_types`
+    (`Dwarf_TU_header`), `cu['type_signature']` for a DWARF 5 type unit of `.debug_info` (`Dwarf_CU_header`,
+    DW_UT_type / DW_UT_split_type variant; that header has no field called `signature`) -/
+def unitSig (h : Val) : R Int :=
+  match h.getInt "signature" with
+  | .ok s => .ok s
+  | .error _ => h.getInt "type_signature"
+
+/-- `cu.header.get('unit_type') in ('DW_UT_type', 'DW_UT_split_type')`: the units of `.debug_info` that
+    `_parse_debug_types` enters into the signature map (after the fix for sig8-v5-type-unit) -/
+def isV5TypeUnit (cu : Lookup.CU) : Bool :=
+  match cu.header.getField "unit_type" with
+  | .ok (.str s) => s == "DW_UT_type" || s == "DW_UT_split_type"
+  | _ => false
+
+/-- `DWARFInfo.get_DIE_by_sig8(sig8)`.  `units` = the type units `_parse_debug_types` finds: those of `.debug_types`
+    followed by the DWARF 5 type units of `.debug_info`
     (each with the unit context its entries are parsed in, or what building that raises), `scanErr` = the
     exception that ended that scan, if any: the map is published only when the scan completes, so EVERY lookup
     re-raises it (after the fix of `_parse_debug_types`).  The dict is keyed by signature: the last unit with a
@@ -423,7 +439,7 @@ def dieBySig8 (fetch : UnitCtx → Nat → R DieObs) (units : List (Lookup.CU ×
   | some e => throw e
   | none => pure ()
   let hit := units.foldl (fun acc (cu, rU) =>
-    match cu.header.getInt "signature" with
+    match unitSig cu.header with
     | .ok s => if s = sig then some (cu, rU) else acc
     | .error _ => acc) none
   match hit with
